@@ -3,6 +3,7 @@ pub mod c08;
 pub mod c09;
 pub mod c10;
 pub mod c11;
+pub mod c12;
 pub mod c13;
 pub mod c14;
 pub mod c15;
@@ -24,6 +25,7 @@ pub fn run(id: &str, tier: &str, seed: u64) -> i32 {
         "C09" => c09::run(&mut r),
         "C10" => c10::run(&mut r),
         "C11" => c11::run(&mut r),
+        "C12" => c12::run(&mut r),
         "C13" => c13::run(&mut r),
         "C14" => c14::run(&mut r),
         "C15" => c15::run(&mut r),
